@@ -110,7 +110,7 @@ fn base_trees() -> Vec<Tree> {
     vec![t1, t2, t3]
 }
 
-const N_MUT: usize = 20;
+const N_MUT: usize = 21;
 
 /// Apply mutation m to a tree. `files`, `dirs`, `links`: the first names of each kind in the base.
 fn mutate(t: &mut Tree, m: usize) {
@@ -233,6 +233,12 @@ fn mutate(t: &mut Tree, m: usize) {
                 t.get_mut(&k).unwrap().mtime.0 += 78;
             }
         }
+        20 => {
+            // symlink -> file
+            if let Some(k) = first(t, &is_link, 0) {
+                *t.get_mut(&k).unwrap() = Node::file(b"was a link", T0 + 507);
+            }
+        }
         19 => {
             // chmod and chown of the root directory
             let n = t.get_mut("").unwrap();
@@ -337,7 +343,8 @@ pub fn judge(base: &Tree, muts: &[usize], scratch: &Scratch) -> Vec<Violation> {
     for (a, s) in &want {
         match s {
             '+' if is_file_in(&new, a) => want_cb.push((a.clone(), '+')),
-            '*' if is_file_in(&new, a) && is_file_in(base, a) => want_cb.push((a.clone(), '*')),
+            // (a path that was a directory or symlink and is a file now is a changed file too)
+            '*' if is_file_in(&new, a) => want_cb.push((a.clone(), '*')),
             '-' if is_file_in(base, a) => want_cb.push((a.clone(), '-')),
             _ => {}
         }
@@ -349,7 +356,7 @@ pub fn judge(base: &Tree, muts: &[usize], scratch: &Scratch) -> Vec<Violation> {
             *s != '.'
                 && match s {
                     '+' => is_file_in(&new, a),
-                    '*' => is_file_in(&new, a) && is_file_in(base, a),
+                    '*' => is_file_in(&new, a),
                     '-' => is_file_in(base, a),
                     _ => false,
                 }
@@ -396,8 +403,8 @@ pub fn run(report: &Report, budget: &Budget) {
     report.set("transitions", json!(n.load(AO::Relaxed) * 5));
     report.set("traces_validated_against_impl", json!(n.load(AO::Relaxed) * 5));
     report.set("exhaustive", json!(done == total));
-    report.set("explanation", json!("three base trees x every set of at most N mutations from a menu of 20 (content, size-only, mtime-only, chmod, chown, kind swaps, additions, removals, retargeted link): diff with and without include_unchanged and the next backup's change callback are compared with the difference of the two tree models"));
-    report.assume("the change callback is compared on regular files only; kind swaps are left out of that comparison, as the callback is only defined for files");
+    report.set("explanation", json!("three base trees x every set of at most N mutations from a menu of 21 (content, size-only, mtime-only, chmod, chown, kind swaps, additions, removals, retargeted link): diff with and without include_unchanged and the next backup's change callback are compared with the difference of the two tree models"));
+    report.assume("the change callback is compared on paths that are regular files (in the new tree for '+' and '*', in the old one for '-'); a path that becomes a directory or symlink is left out, as the callback is only defined for files");
     report.assume("directory mtimes are not a change (as the implementation documents)");
 }
 
